@@ -72,6 +72,15 @@ def run(case):
             v = a[:, 1]
             v[1] = -9
         return {'a': a.tolist()}
+    if f == 'np_bool_arith':
+        m = numpy.array(case['mask'])
+        ints = numpy.arange(len(case['mask']))
+        return {'sub': (case['n'] - m).tolist(), 'add': (m + ints).tolist(), 'mul': (ints * m).tolist(), 'app': numpy.append(ints, ints[0]).tolist()}
+    if f == 'np_linspace':
+        return {'r': numpy.linspace(case['a'], case['b'], case['n']).tolist()}
+    if f == 'np_unique_small':
+        u, first, inv, cnt = numpy.unique(numpy.array(case['vals']), return_index=True, return_inverse=True, return_counts=True)
+        return {'u': u.tolist(), 'first': first.tolist(), 'inv': inv.tolist(), 'cnt': cnt.tolist()}
     if f == 'np_slice_store':
         a = numpy.array([[10, 11], [20, 21], [30, 31], [40, 41]])
         v = case['val']
